@@ -7,3 +7,12 @@ Definition get_binding_clauses : list clause := [CGlobalDecl; CNonlocalDecl; COw
 Definition nonlocal_namespace_skips_classes : bool := true.
 (* NameBinder.get_binding binds a name declared global in the module namespace, otherwise finds or creates it in the namespace given *)
 Definition binder_global_to_module : bool := true.
+From Coq Require Import String.
+#[local] Open Scope string_scope.
+(* C09: the builtins whose (unshadowed) use sets module.tainted, the imported modules that do, star imports, and EVERY assignment to a `.tainted` attribute in rename/ and __init__.py *)
+Definition taint_builtins : list string := ["exec"; "eval"; "locals"; "globals"; "vars"].
+Definition taint_modules : list string := ["timeit"].
+Definition star_import_taints : bool := true.
+(* get_binding taints the module for ANY reference that reaches the module under one of these names, also when the module binds the name itself *)
+Definition taint_regardless_of_module_binding : bool := true.
+Definition tainted_writes : list (string * string) := [("rename/bind_names.py", "False"); ("rename/bind_names.py", "True"); ("rename/bind_names.py", "True"); ("rename/resolve_names.py", "True"); ("rename/resolve_names.py", "True"); ("rename/resolve_names.py", "True")].
